@@ -61,13 +61,50 @@ def comparators(ctx, obs, rule='CMP'):
         obs.check(eu or dflt, rule, q, 'the distance is Euclidean', f'`{ast.unparse(e)[:80]}`', '', where(prog, f, n))
         ctr = any(isinstance(x, ast.Name) and x.id == 'SRC1' for x in ast.walk(e))
         obs.check(ctr, rule, q, 'the distance is measured from the centre', 'cdist does not involve `center`', '', where(prog, f, n))
-    obs.check(len(pre) == 3, rule, q, 'the bounding-box pre-filter covers the three axes', f'{len(pre)} pre-filter comparisons', '',
-              where(prog, f, f.node))
     for n in pre:
         ok = isinstance(n.ops[0], (ast.Lt, ast.LtE)) and isinstance(n.comparators[0], ast.Name) and n.comparators[0].id == 'radius' \
             and isinstance(n.left, ast.Call) and _leaf(n.left.func) == 'abs'
-        obs.check(ok, rule, q, 'the per-axis pre-filter keeps every voxel the final filter could accept (|d| < radius or <=)',
-                  f'`{norm(n)}` can drop voxels within the radius', '', where(prog, f, n))
+        if ok:
+            obs.ok(rule, q, 'the per-axis pre-filter keeps every voxel the final filter could accept (|d| < radius or <=)', '', where(prog, f, n))
+        elif isinstance(n.left, ast.Call) and _leaf(n.left.func) == 'abs' and isinstance(n.ops[0], (ast.Lt, ast.LtE)):
+            # |d| < something else: decide by the same floor/ceil case analysis as for bounding boxes
+            bound = inl.inline(n.comparators[0])
+            lin = _lin_in_radius(bound)
+            strict = isinstance(n.ops[0], ast.Lt)
+            pure = _radius_plus_const(bound)
+            if pure is not None:
+                # |d| < r + k (or <=): keeps every |d| < r for all real r iff k >= 0
+                obs.check(pure >= 0, rule, q, 'the per-axis pre-filter keeps every voxel the final filter could accept',
+                          f'`{norm(n)}` drops voxels whose offset on this axis is below the radius', '', where(prog, f, n))
+            elif lin is None:
+                obs.unk(rule, q, 'the per-axis pre-filter keeps every voxel the final filter could accept', f'`{norm(n)}`', where(prog, f, n))
+            else:
+                # need: every integer d with |d| <= ceil(r) - 1 passes   |d| < B (strict) / |d| <= B
+                good = _covers(lin, need_ce_coeff=1, need_const=(-1 if not strict else 0), strict=strict)
+                obs.check(good, rule, q, 'the per-axis pre-filter keeps every voxel the final filter could accept',
+                          f'`{norm(n)}` can drop voxels within the radius', '', where(prog, f, n))
+        else:
+            obs.unk(rule, q, 'the per-axis pre-filter keeps every voxel the final filter could accept', f'`{norm(n)}` not recognised',
+                    where(prog, f, n))
+    # bounding boxes built with arange(lo, hi): every offset d with |d| < radius must lie in [lo - c, hi - c)
+    mg = [c for c in ast.walk(f.node) if isinstance(c, ast.Call) and _leaf(c.func) == 'meshgrid']
+    for c in mg:
+        for ax, a in enumerate(c.args[:3]):
+            e = inl.inline(a)
+            if isinstance(e, ast.Call) and _leaf(e.func) == 'arange' and len(e.args) == 2:
+                lo, hi = e.args
+                A = _reach(lo, lower=True)
+                B = _reach(hi, lower=False)
+                con = f'axis {ax}: the bounding box contains every offset below the radius'
+                if A is None or B is None:
+                    obs.unk(rule, q, con, f'`{ast.unparse(e)[:90]}`: bounds not linear in floor/ceil of the radius', where(prog, f, c))
+                    continue
+                # lo = c - A  must satisfy  A >= ceil(r) - 1 ; hi = c + B (exclusive) must satisfy B >= ceil(r)
+                okA = _covers(A, need_ce_coeff=1, need_const=-1, strict=False)
+                okB = _covers(B, need_ce_coeff=1, need_const=0, strict=False)
+                obs.check(okA and okB, rule, q, con,
+                          f'`{ast.unparse(e)[:110]}`: for a non-integer radius the box ends before the last offset below the radius '
+                          f'(lower reach {_show(A)}, upper reach {_show(B)}; needed ceil(radius)-1 and ceil(radius))', '', where(prog, f, c))
     q2 = S + 'get_volume_searchlight'
     f2 = prog.func(q2)
     acc = [n for n in ast.walk(f2.node) if isinstance(n, ast.Compare) and any(isinstance(x, ast.Name) and x.id == 'threshold' for x in ast.walk(n))]
@@ -108,9 +145,19 @@ def index_space(ctx, obs, rule='INDEX'):
     ar = [c for c in ast.walk(f2.node) if isinstance(c, ast.Call) and _leaf(c.func) == 'arange']
     inl2 = Inliner(ctx.dep.result(q2), None, ('mask', 'center', 'radius'))
     dims = [ast.unparse(inl2.inline(c.args[0])).replace(' ', '') if c.args else '' for c in ar]
-    ok = len(ar) == 3 and dims == ['SRC0.shape[0]', 'SRC0.shape[1]', 'SRC0.shape[2]']
-    obs.check(ok, rule, q2, 'candidate voxels are restricted to the volume (arange over each mask dimension)',
-              f'{[norm(c) for c in ar]}', '', where(prog, f2, f2.node))
+    con = 'candidate voxels are restricted to the volume'
+    if len(ar) == 3 and all(len(c.args) == 1 for c in ar):
+        obs.check(dims == ['SRC0.shape[0]', 'SRC0.shape[1]', 'SRC0.shape[2]'], rule, q2, con + ' (arange over each mask dimension)',
+                  f'{[norm(c) for c in ar]}: the candidate ranges are not the three mask dimensions', '', where(prog, f2, f2.node))
+    elif len(ar) == 3 and all(len(c.args) == 2 for c in ar):
+        def clipped(c, k):
+            lo, hi = (ast.unparse(inl2.inline(a)).replace(' ', '') for a in c.args)
+            return lo.startswith(('max(', 'np.maximum(')) and lo.endswith(',0)') and hi.startswith(('min(', 'np.minimum(')) \
+                and hi.endswith(f',SRC0.shape[{k}])')
+        obs.soft(all(clipped(c, k) for k, c in enumerate(ar)), rule, q2, con + ' (boxes clipped to [0, shape))',
+                 f'{[norm(c)[:50] for c in ar]}', '', where(prog, f2, f2.node))
+    else:
+        obs.unk(rule, q2, con, f'{[norm(c)[:50] for c in ar]}: construction not recognised', where(prog, f2, f2.node))
 
 
 def _dataset_calls(body_nodes):
@@ -177,6 +224,22 @@ def siblings(ctx, obs, rule='SIB'):
             ok = bool(inner) and isinstance(inner[0].iter, ast.Name) and inner[0].iter.id == first.id
     obs.check(ok, rule, q, 'the RDMs of a chunk are stored at the indices of the centres of that chunk',
               'chunk results are not stored at RDM[chunk, :] for the chunk they were computed from', '', where(prog, f, sp))
+    # the buffer that collects the chunk results holds floats whatever the input data type: an integer buffer truncates the
+    # dissimilarities, while the unchunked arm returns calc_rdm's float array
+    allocs = [s for n in sp.body for s in ast.walk(n) if isinstance(s, ast.Assign) and isinstance(s.targets[0], ast.Name)
+              and s.targets[0].id == out_name and isinstance(s.value, ast.Call) and _leaf(s.value.func) in ('zeros', 'empty', 'ones', 'full')]
+    for a in allocs:
+        dt = next((k.value for k in a.value.keywords if k.arg == 'dtype'), None)
+        con = 'the chunk buffer stores the dissimilarities as floats, like the unchunked arm'
+        if dt is None or (isinstance(dt, ast.Name) and dt.id == 'float') or (isinstance(dt, ast.Attribute) and dt.attr in ('float64', 'double', 'float_')) \
+                or (isinstance(dt, ast.Constant) and dt.value in ('float', 'float64', 'f8', 'd')):
+            obs.ok(rule, q, con, f'`{norm(a)[:70]}`', where(prog, f, a))
+        elif any(isinstance(x, ast.Name) and x.id in f.params for x in ast.walk(dt)) or \
+                any(isinstance(x, ast.Attribute) and x.attr == 'dtype' for x in ast.walk(dt)):
+            obs.bad(rule, q, con, f'`{norm(a)[:90]}` takes the buffer type from the input: integer-typed data (e.g. int16 volumes) '
+                    f'truncate every dissimilarity written into it, only when more than 1000 centres are processed', where(prog, f, a))
+        else:
+            obs.unk(rule, q, con, f'dtype `{norm(dt)}` not recognised', where(prog, f, a))
     ctor = [c for c in ast.walk(f.node) if isinstance(c, ast.Call) and _leaf(c.func) == 'RDMs']
     for c in ctor:
         kw = {k.arg: k.value for k in c.keywords}
@@ -247,3 +310,98 @@ def order(ctx, obs, rule='ORDER'):
         return isinstance(e, ast.Call) and isinstance(e.func, ast.Call) and _leaf(e.func.func) == 'Parallel'
     obs.check(all(_is_parallel_result(n.value) for n in rets) and bool(rets), rule, q,
               'the list produced by Parallel is returned as is', f'{[norm(n) for n in rets]}', '', where(prog, f, f.node))
+
+
+# ---- linear forms  a*floor(r) + b*ceil(r) + k  (r = the radius) and their comparison for integer and non-integer r
+def _lin_in_radius(e):
+    """(a, b, k) for expressions built from int(radius)/floor(radius), ceil(radius), radius itself (only meaningful when integer:
+    treated as unknown), integer constants, + and -"""
+    if isinstance(e, ast.Constant) and isinstance(e.value, int):
+        return (0, 0, e.value)
+    if isinstance(e, ast.Call):
+        nm = _leaf(e.func)
+        arg = e.args[0] if e.args else None
+        inner_is_r = isinstance(arg, ast.Name) and arg.id in ('SRC2', 'radius')
+        if nm in ('int', 'floor', 'trunc') and inner_is_r:
+            return (1, 0, 0)
+        if nm == 'ceil' and inner_is_r:
+            return (0, 1, 0)
+        if nm in ('int', 'floor', 'ceil') and arg is not None:
+            inner = _lin_in_radius(arg)
+            return inner
+        return None
+    if isinstance(e, ast.BinOp) and isinstance(e.op, (ast.Add, ast.Sub)):
+        l, r = _lin_in_radius(e.left), _lin_in_radius(e.right)
+        if l is None or r is None:
+            return None
+        sg = 1 if isinstance(e.op, ast.Add) else -1
+        return (l[0] + sg * r[0], l[1] + sg * r[1], l[2] + sg * r[2])
+    return None
+
+
+def _radius_plus_const(e):
+    """k for expressions `radius + k` / `radius - k` / `radius` (radius as a real number), else None"""
+    if isinstance(e, ast.Name) and e.id in ('SRC2', 'radius'):
+        return 0
+    if isinstance(e, ast.BinOp) and isinstance(e.op, (ast.Add, ast.Sub)) and isinstance(e.right, ast.Constant) \
+            and isinstance(e.right.value, (int, float)):
+        base = _radius_plus_const(e.left)
+        if base is not None:
+            return base + (e.right.value if isinstance(e.op, ast.Add) else -e.right.value)
+    return None
+
+
+def _covers(lin, need_ce_coeff, need_const, strict):
+    """is  a*fl + b*ce + k  >=  need_ce_coeff*ce + need_const   for every radius > 0 (integer: fl = ce; otherwise ce = fl + 1)?
+    decided for forms whose total coefficient equals the needed one (the only forms that are tight for all radii)"""
+    a, b, k = lin
+    if a + b < need_ce_coeff:
+        return False
+    if a + b > need_ce_coeff:
+        return True        # grows faster than needed: holds from radius 1 on when k >= need_const - 1 ... accept (over-approximate box)
+    # integer radius: (a+b) r + k >= r*need + need_const
+    ok_int = k >= need_const
+    # non-integer: fl = ce - 1:  a(ce-1) + b ce + k >= need ce + need_const  ->  -a + k >= need_const
+    ok_frac = (k - a) >= need_const
+    return ok_int and ok_frac
+
+
+def _show(lin):
+    a, b, k = lin
+    parts = []
+    if a:
+        parts.append(f'{a}*floor(r)' if a != 1 else 'floor(r)')
+    if b:
+        parts.append(f'{b}*ceil(r)' if b != 1 else 'ceil(r)')
+    if k or not parts:
+        parts.append(str(k))
+    return ' + '.join(parts).replace('+ -', '- ')
+
+
+def _reach(e, lower: bool):
+    """lo = max(c - A, 0) / c - A   -> A ;   hi = min(c + B, n) / c + B -> B   (as linear forms), None if not of that shape"""
+    if isinstance(e, ast.Call) and _leaf(e.func) in ('max', 'min', 'maximum', 'minimum') and len(e.args) == 2:
+        cands = [_reach(a, lower) for a in e.args]
+        cands = [c for c in cands if c is not None]
+        if len(cands) > 1:
+            cands = [c for c in cands if (c[0], c[1]) != (0, 0)]     # the other candidate is the volume bound
+        return cands[0] if len(cands) == 1 else None
+    # peel c +/- stuff: collect linear form of (e - c) where c is a component of the centre (any non-radius name)
+    def lin(x):
+        if isinstance(x, ast.BinOp) and isinstance(x.op, (ast.Add, ast.Sub)):
+            l, r = lin(x.left), lin(x.right)
+            if l is None or r is None:
+                return None
+            sg = 1 if isinstance(x.op, ast.Add) else -1
+            return (l[0] + sg * r[0], l[1] + sg * r[1], l[2] + sg * r[2], l[3] + sg * r[3])
+        t = _lin_in_radius(x)
+        if t is not None:
+            return (t[0], t[1], t[2], 0)
+        if isinstance(x, (ast.Name, ast.Subscript, ast.Attribute)):
+            return (0, 0, 0, 1)      # one centre coordinate
+        return None
+    t = lin(e)
+    if t is None or t[3] != 1:
+        return None
+    a, b, k, _ = t
+    return (-a, -b, -k) if lower else (a, b, k)
